@@ -226,6 +226,13 @@ func c08Scenarios(tier string) []*Scenario {
 			}
 			add(prepare(&c08Case{name: "hedge", stack: []Spec{hedge}, script: hs, source: src, at: at}))
 		}
+		// a hedge that accepts any result (the default): cancelled before its first attempt has started, and inside it
+		for _, at := range []time.Duration{0, 10} {
+			if src == "deadline" && at == 0 {
+				continue
+			}
+			add(prepare(&c08Case{name: "hedge-any-result", stack: []Spec{{Kind: KHedge, MaxHedges: 1, HDelay: R}}, script: hs, source: src, at: at}))
+		}
 		add(prepare(&c08Case{name: "fallback(hedge)", stack: []Spec{fb, hedge}, script: hs, source: src, at: 10}))
 		add(prepare(&c08Case{name: "retry(hedge)", stack: []Spec{retry, hedge}, script: hs, source: src, at: 50}))
 		// a hedge round won by a failing hedge while the first attempt is still running (it is cancelled as the
